@@ -163,6 +163,8 @@ def truthy(v):
     if isinstance(v, PyObj):
         return z3.BoolVal(bool(v.o))
     t = v.ty
+    if t == T.SINK:
+        return z3.Bool(T.fresh_name("sink_truth"))     # unknown: both branches are explored
     if t == BOOL:
         return v.z
     if t in (INT, CHAR):
@@ -226,6 +228,8 @@ def seq_eq(a: V, b: V):
 
 def val_eq(a, b):
     """Python == between two values."""
+    if (isinstance(a, V) and a.ty == T.SINK) or (isinstance(b, V) and b.ty == T.SINK):
+        return z3.Bool(T.fresh_name("sink_eq"))
     if isinstance(a, K) and isinstance(b, K):
         return z3.BoolVal(a.v == b.v)
     if isinstance(a, PyObj) and isinstance(a.o, tuple) and a.o and a.o[0] == "setlit" and isinstance(b, V):
